@@ -22,11 +22,16 @@ def run(ctx):
     q = ctx.quick
     mc = [("MC_Router", "MC_Router_flat2.cfg" if q else "MC_Router_flat.cfg", dict(workers=8, timeout=1800)),
           ("MC_Router", "MC_Router.cfg" if q else "MC_Router_deep.cfg", dict(workers=8, timeout=3000)),
-          ("MC_Router", "MC_Router_noboundary.cfg", dict(workers=2, expect_violation=True))]
+          ("MC_Router", "MC_Router_noboundary.cfg", dict(workers=2, expect_violation=True)),
+          # routes of the parent below the prefix at which it mounts a child: the repaired merge (param children merged) dispatches as
+          # the property allows in every order; the merge before the repair (two param siblings) must give a counterexample
+          ("MC_Router", "MC_Router_overlap.cfg" if q else "MC_Router_overlap_deep.cfg", dict(workers=8, timeout=3000)),
+          ("MC_Router", "MC_Router_nopmerge.cfg", dict(workers=4, expect_violation=True))]
     gen = [("RouterGen", "Gen_Router_c01.cfg" if q else "Gen_Router_c01_deep.cfg", dict(workers=6, timeout=1200)),
            ("RouterGen", "Gen_Router_c01_dash.cfg" if q else "Gen_Router_c01_dash_deep.cfg", dict(workers=6, timeout=1200, name="gen-dash")),
            ("RouterGen", "Gen_Router_c01_m.cfg", dict(workers=4)),
            ("RouterGen", "Gen_Router_c01_mount.cfg", dict(workers=6, timeout=1200)),
+           ("RouterGen", "Gen_Router_c01_overlap.cfg" if q else "Gen_Router_c01_overlap_deep.cfg", dict(workers=6, timeout=1200, name="gen-overlap")),
            ("RouterGen", "Gen_Router_c01_sim.cfg", dict(workers=4, simulate="num=%d" % (8 if q else 150), depth=16, name="gen-sim", timeout=1200))]
     obs, _ = standard_pipeline(ctx, sub="router", mc=mc, gen=gen, trace=TRACE, random_n=400 if q else 6000, random_extra=(),
                                nontrivial=nontrivial, dedupe_key=lambda s: json.dumps([s["apps"], s["early"]], sort_keys=True),
